@@ -1849,7 +1849,8 @@ func (query *Query) exec() (result any, err error) {
 			{
 				copy := CopyQuery(query)
 				copy.from = current
-				rs, err := copy.exec()
+				// the copy waits for its own outstanding calls and runs its own post-processors
+				rs, err := copy.execAndPostProcess()
 				if err != nil {
 					return nil, err
 				}
@@ -2012,7 +2013,7 @@ func CopyQuery(query *Query) *Query {
 		offsetDefinition:  query.offsetDefinition,
 		orderByDefinition: query.orderByDefinition,
 		options:           query.options,
-		postProcessors:    query.postProcessors,
+		postProcessors:    make([]func() error, 0),
 		// a copy evaluates its own rows: it needs a memo of its own
 		singletonExecutions: make(map[string]any),
 	}
